@@ -718,8 +718,10 @@ impl TypedProp for C15 {
     fn judge(&self, case: &LCase) -> Verdict {
         judge_case(case)
     }
-    // every evaluation is a real-time run of about a second (four with the confirmation run)
+    // every evaluation is a real-time run of two to three seconds, and a failing one is
+    // confirmed three and ten times slower: a small shrink budget keeps a failing run
+    // within minutes
     fn max_shrink_steps(&self) -> usize {
-        40
+        12
     }
 }
